@@ -106,11 +106,12 @@ def run(ctx, res):
     res.extra["exception_classes"] = sorted(c.__name__ for c in classes)
     tasks = []
     ncreds = len(_auth.creds())
+    semantic = [f for f in faults.AUTH_FAULTS if f not in faults.MALFORMED]     # the response stays well-formed
     for ci in range(ncreds):
-        for f in faults.AUTH_FAULTS:
+        for f in semantic:
             tasks.append(("auth", ci, (f,)))
         for _ in range(5 if ctx.quick() else 60):
-            tasks.append(("auth", ci, tuple(rng.sample(faults.AUTH_FAULTS, rng.randrange(2, 5)))))
+            tasks.append(("auth", ci, tuple(rng.sample(semantic, rng.randrange(2, 5)))))
     for fmt in _reg.FORMATS:
         choices = _reg.cred_choices(fmt)
         for f in attest.applicable(fmt):
